@@ -15,6 +15,8 @@ def bad(clause, **kw):
 def observe(root, where):
     ok = True
     for m in root.members:
+        if isinstance(m, SecurityBase) and m.position != 0 and abs(m.price - float(DATA.loc[root.now, m.name])) > 1e-9 * max(1.0, abs(m.price)):
+            bad("held-security-is-marked-at-the-price-of-the-current-date", node=m.full_name, price=m.price, quote=float(DATA.loc[root.now, m.name]), at=where); ok = False
         if isinstance(m, SecurityBase):
             want = m.position * m.price * m.multiplier if m.position != 0 else 0.0
             if abs(m.value - want) > 1e-7 * max(1.0, abs(want)): bad("security-value-is-position-x-price-x-multiplier", node=m.full_name, value=m.value, want=want, at=where); ok = False
@@ -45,7 +47,9 @@ for it in range(N):
     root.update(idx[0])
     trace = []
     good = True; dirty = False
+    DATA = data
     for d in range(1, n):
+      if d < n - 1 and rs.rand() < 0.2: continue          # a hand-driven tree need not visit every date of its data
       try:
         root.update(idx[d])
         for _ in range(int(rs.randint(1, 6))):
